@@ -374,6 +374,32 @@ def serde_path_panics(crate, syn, prop="C10"):
     return r
 
 
+def trailing_comma_rule(T, prop="C10"):
+    r = Result("C10.R11", "in each `impl Parse for Serde<X>` the separator `,` is never followed by an unconditional key read: every path from the comma back to the key reader tests `is_empty`, so `#[serde(k = v,)]` (valid serde) does not turn into a parse error that drops the whole list")
+    for x in tables.ATTRS:
+        t = T.get("Serde<%s>" % x)
+        if t is None:
+            r.fail(prop, "anchor-missing table Serde<%s>" % x, "cannot recover the serde key table")
+            continue
+        b = t.parent or t.body
+        keys = [blk for blk, term in b.calls() if fn_matches(term, r"ParseBuffer::<'.*>::call$") and not b.is_cleanup(blk)]
+        commas = [blk for blk, term in b.calls() if fn_matches(term, r"ParseBuffer::<'.*>::parse$") and "Comma" in (term.get("dst_ty") or "") and not b.is_cleanup(blk)]
+        empties = [blk for blk, term in b.calls() if fn_matches(term, r"ParseBuffer::<'.*>::is_empty$") and not b.is_cleanup(blk)]
+        if not keys or not commas:
+            r.fail(prop, "anchor-missing key-loop Serde<%s>" % x, "key reader or separator parse not found in parse()", b.file(), b.line())
+            continue
+        for cblk in commas:
+            nxt = b.term(cblk).get("target")
+            ok = nxt is not None and b.all_paths_pass(nxt, empties, keys)
+            r.inst(table="Serde<%s>" % x, comma_block=cblk, key_reader_blocks=keys, emptiness_tests=empties, tested_before_next_key=ok)
+            if not ok:
+                r.fail(prop, "trailing-comma-drops-list Serde<%s>" % x,
+                       "after the `,` separator the next key is read without testing for the end of the list: a trailing comma makes parse() fail and the whole #[serde(..)] list is ignored",
+                       b.file(), b.line())
+    r.floor = 4
+    return r
+
+
 def run(ctx):
     out = []
     syn = ctx.syn
@@ -383,7 +409,7 @@ def run(ctx):
     for fs in fsets:
         c = ctx.mir(fs)["ts_rs_macros"]
         T = tables.extract(c)
-        res = [arm_agreement(T), supported_keys(T), eq_once(T), fallback_rule(T, c), skip_cursor_rule(c), serde_path_panics(c, syn)]
+        res = [arm_agreement(T), supported_keys(T), eq_once(T), fallback_rule(T, c), skip_cursor_rule(c), serde_path_panics(c, syn), trailing_comma_rule(T)]
         if fs == "default":
             nd = ctx.mir("nodefault") if ctx.tier == "thorough" else None
             res += [ts_wins(syn, c), feature_gate(syn, nd), value_forms(T, syn)]
